@@ -8,7 +8,8 @@ C07 — Files follow the published serialization format in both directions.
    produced from the document's rules alone - support structures absent, any admissible parameter choice -
    loads and answers all queries correctly."
 
-Property theorems only (helper lemmas live in Proofs/Format.lean, Proofs/Codec.lean, Proofs/Supports.lean).
+Property theorems only (helper lemmas live in Proofs/Format.lean, Proofs/Format2.lean, Proofs/Codec.lean,
+Proofs/Codec2.lean, Proofs/Supports.lean, Proofs/RLQueries.lean).
 
 **The document side.**  `Sds/Spec/Format.lean` (namespace `Sds.Doc`) is a decoder written from
 SERIALIZATION.md alone: it imports the word type, the bit accessor `getBit` and the list-level reference
@@ -37,24 +38,49 @@ Elements are 64-bit little-endian: `file_bytes_are_little_endian_elements`.
   2. wavelet matrix core: the items are elements and the width "can be from 1 to 64 bits" (as for integer
      vectors);
   3. wavelet matrix `first`: the alphabet of the empty vector is `0..=0`.
+Two more places where the document is silent surfaced in direction (←) (not marked CHOICE in Spec/Format.lean; the
+decoder takes the permissive reading in both):
+  4. run-length vector: the document does not say that an integer uses the MINIMAL number of code units
+     (`Doc.rlInt` accepts superfluous most significant zero groups);
+  5. sparse vector: the document gives no upper bound for the low width `w` other than that of integer vectors
+     (`Doc.sparse` accepts `w = 64`).
 
 Quantifiers.  (→): every well-formed structure of each type (`RawVec.WF`, `IntVec.WF`, `bitVectorWF` — the
 invariants established by every constructor, see C05 / C08 / C09), lengths that fit a `usize`; plain
 bitvectors with ANY subset of the three support structures present (all 8, `bit_vector_any_supports_…`);
 sparse vectors for every universe, every sorted position list and EVERY low width `w` in 1..=63 (the writer's
-admissible parameter choice), set and multiset; wavelet matrices for every item list.  Every `rest`: the
+admissible parameter choice), set and multiset; wavelet matrices for every item list; run-length vectors for
+every accepted history of builder calls (`try_set` / `set_len` / `set_bit`), in both modes.  Every `rest`: the
 structure may be followed by anything, so the statements apply to a structure anywhere in a file.
-(←): every element list the document's decoder accepts.
+(←): every element list the document's decoder accepts, support structures absent (for sparse vectors also: any
+subset of the supports the library itself writes), in both modes.
 
-**Partial** (details at the theorems / in the final comment):
-  * (→) run-length vector: `rl_file_follows_format_partial` is relative to a block layout conforming to the
-    document (`Doc.RLConf`); that every vector produced by `From<RLBuilder>` has such a layout is not proven.
-  * (←) is proven for raw vectors, integer vectors and plain bitvectors (supports absent).  For sparse,
-    run-length and wavelet-matrix files written by a document-level encoder it is covered by correspondence
-    only (an independent encoder written from the document produces files, the library loads them and
-    answers every query).
+**Status.**
+  * (→) is proven for all six types.  Run-length vectors: `rl_file_follows_format` (every built vector; the block
+    layout conforms to the document, `rl_built_layout_conforms`), under the same size condition as the round trip
+    of C06 (`128 * samples.len < 2^64`: the two integer vectors fit a `usize`-addressed file).
+  * (←) is proven for all six types, with these explicit hypotheses:
+      - plain bitvector, sparse `high`, wavelet levels: optional structures absent (the document lets a reader skip
+        them by length, the library parses and TRUSTS them: `bit_vector_document_acceptance`,
+        `wavelet_optional_garbage_refused`, `wavelet_optional_wrong_rank_answers_wrongly`,
+        `sparse_wrong_select_support_answers_wrongly`); for sparse also with the supports the library writes;
+      - sparse: `w ≤ 63` for the THEOREM (the invariant `Sparse.Encodes` is stated for widths 1..63).  At `w = 64`
+        (reading 5) the code AS FIRST WRITTEN was wrong: a document-valid file with `w = 64` loaded and then
+        `get` / `rank` / `select` shifted a `usize` by 64 in `split` / `combine` (debug: panic; release: wrong
+        bucket, `unwrap` on `None`) — defect F13, found through `sparse_width_64_file`, reproduced on the real
+        library and REPAIRED (`fix:` commit 26c56a9: both shifts guarded like `get_buckets` already was).  The
+        model's `Sparse.split` / `combine` use unbounded `Nat` shifts, i.e. they describe the repaired code
+        (`index >>> 64 = 0` for every `usize`); width 64 is now exercised by the correspondence check (document-level
+        encoder with every width 1..=64) and the minimised file is in `corpus/C07`;
+      - run-length: every integer minimally encoded (`Format2.RLCanon`) — FALSE without it, see
+        `rl_nonminimal_encoding_file` (reading 4): a document-valid file on which the library loads and then
+        panics in `get` (shift by 66 bits in `decode`, debug build);
+      - sizes that no real file violates: fewer than `2^63` values / items (`P.length < 2^63`, `V.length < 2^63`).
+    Adjacent runs (gap 0 after the first run), on which the library's zero iterator would misbehave, are NOT
+    document-valid ("a sequence of maximal runs"): `rl_adjacent_runs_refused_by_document`.
 -/
 import Sds.Proofs.Format
+import Sds.Proofs.Format2
 
 namespace Sds.C07
 open Sds Outcome SupportProofs
@@ -178,24 +204,12 @@ theorem wavelet_matrix_file_follows_format (V : List Nat) (hV : ∀ v ∈ V, v <
     Doc.wm (wmC.ser (WM.ofValues V) ++ rest) = some (V, rest) :=
   Doc.wm_ser_ofValues V hV hlen hfirst rest
 
-/-
-run-length vector — intended full statement:
-
-    for every mode `m` and every vector `v` produced by `From<RLBuilder>` from a builder reached by accepted
-    calls describing the bit sequence `B`:
-      Doc.rl ((rlC m).ser v ++ rest) = some ((B.length, maximalRuns B), rest)
-
-Proven (`Doc.rl_ser_of_conf`, `Doc.rlBlocks_conf`): the DOCUMENT side — the document's decoder, run on the
-serialization of any vector whose data and samples are laid out in blocks `bl` conforming to the document
-(`Doc.RLConf`: block `b` starts at unit `64 b`, its sample is `(set bits, bits)` before it, its runs are
-maximal and entire, padding is 0 and present only when the next run does not fit, the final block ends with
-its last run), returns the length and exactly the runs of `bl`.
-Missing: the MODEL side — that `From<RLBuilder>` always yields a vector with `intVecWF` data / samples,
-minimal sample width and a conforming layout.  Proofs/RL has the corresponding layout for the iterator
-(`RunIter.Layout`), which deliberately says nothing about the padding units, the sample width or the
-maximality of gaps, so it does not imply `Doc.RLConf`.  Covered by correspondence.
--/
-theorem rl_file_follows_format_partial (m : Mode) (v : RL) (hlen : v.len < 2 ^ 64) (hones : v.ones < 2 ^ 64)
+/-- run-length vector, document side: the document's decoder, run on the serialization of any vector whose data
+and samples are laid out in blocks `bl` conforming to the document (`Doc.RLConf`: block `b` starts at unit `64 b`,
+its sample is `(set bits, bits)` before it, its runs are maximal and entire, padding is 0 and present only when
+the next run does not fit, the final block ends with its last run), returns the length and exactly the runs of
+`bl` -/
+theorem rl_conforming_layout_follows_format (m : Mode) (v : RL) (hlen : v.len < 2 ^ 64) (hones : v.ones < 2 ^ 64)
     (hs : intVecWF v.samples) (hd : intVecWF v.data) (hw : v.data.width = 4)
     (hsl : v.samples.len = 2 * ((v.data.len + 63) / 64))
     (hmin : Doc.minimalWidth v.samples.width v.samples.items = true)
@@ -204,6 +218,37 @@ theorem rl_file_follows_format_partial (m : Mode) (v : RL) (hlen : v.len < 2 ^ 6
     (hl : Doc.lens bl.flatten = v.ones) (hn : Doc.span bl.flatten ≤ v.len) (rest : Doc.File) :
     Doc.rl ((rlC m).ser v ++ rest) = some ((v.len, Doc.absRuns 0 bl.flatten), rest) :=
   Doc.rl_ser_of_conf m v hlen hones hs hd hw hsl hmin bl hconf hl hn rest
+
+/-- run-length vector, model side: the vector produced by `From<RLBuilder>` after ANY accepted history of
+`try_set` / `set_len` / `set_bit` calls has a block layout conforming to the document, whose runs are the maximal
+runs of the described bit sequence (both modes) -/
+theorem rl_built_layout_conforms (m : Mode) (calls : List RL.BCall) (hc : ∀ c ∈ calls, RL.callArgsOk c)
+    (b : RLBuilder) (hb : RL.runBCalls m calls {} = ok b) (v : RL) (hv : RL.ofBuilder m b = ok v)
+    (hsize : 128 * v.samples.len < 2 ^ 64) :
+    ∃ bl : List (List (Nat × Nat)),
+      Doc.RLConf v.data.items.toArray v.samples.items.toArray v.ones ((v.data.len + 63) / 64) 0 0 0 bl ∧
+      RunIter.absRuns 0 bl.flatten = maximalRuns (calls.foldl RL.specCall []) :=
+  (Format2.rl_build_file_follows_format m calls hc b hb v hv hsize []).2
+
+/-- run-length vector: for every mode and every vector produced by `From<RLBuilder>` from a builder reached by
+accepted calls describing the bit sequence `B`, the written file is a run-length encoded bitvector of the
+document, and the document reads `(|B|, maximal runs of B)` from it.
+(`hsize`: the two integer vectors fit a `usize`-addressed file, as in the round trip of C06.) -/
+theorem rl_file_follows_format (m : Mode) (calls : List RL.BCall) (hc : ∀ c ∈ calls, RL.callArgsOk c)
+    (b : RLBuilder) (hb : RL.runBCalls m calls {} = ok b) (v : RL) (hv : RL.ofBuilder m b = ok v)
+    (hsize : 128 * v.samples.len < 2 ^ 64) (rest : Doc.File) :
+    Doc.rl ((rlC m).ser v ++ rest) =
+      some (((calls.foldl RL.specCall []).length, maximalRuns (calls.foldl RL.specCall [])), rest) :=
+  (Format2.rl_build_file_follows_format m calls hc b hb v hv hsize rest).1
+
+/-- … and the conversion itself never fails after an accepted history -/
+theorem rl_every_history_file_follows_format (m : Mode) (calls : List RL.BCall)
+    (hc : ∀ c ∈ calls, RL.callArgsOk c) (b : RLBuilder) (hb : RL.runBCalls m calls {} = ok b) :
+    ∃ v, RL.ofBuilder m b = ok v ∧ (128 * v.samples.len < 2 ^ 64 → ∀ rest : Doc.File,
+      Doc.rl ((rlC m).ser v ++ rest) =
+        some (((calls.foldl RL.specCall []).length, maximalRuns (calls.foldl RL.specCall [])), rest)) := by
+  obtain ⟨v, hv⟩ := RL.ofBuilder_total m calls hc b hb
+  exact ⟨v, hv, fun hsize rest => rl_file_follows_format m calls hc b hb v hv hsize rest⟩
 
 /-! ### direction (←): what the document accepts, the library loads, with that content -/
 
@@ -289,27 +334,171 @@ theorem bit_vector_document_acceptance (es : Doc.File) (B : List Bool) (rest : D
       Doc.optionalSkip r0 = some r1 ∧ Doc.optionalSkip r1 = some r2 ∧ Doc.optionalSkip r2 = some rest :=
   Doc.bitVector_eq_some h
 
-/-
-direction (←) for the compressed structures — intended statements, NOT proven (by correspondence only:
-`tools/` contains an encoder written from the document; its files — supports absent, every admissible low
-width for sparse vectors, any sufficient sample width — are loaded by the library and every query is compared
-with the reference):
+/-! #### sparse bitvector -/
 
-  sparse_document_file_loads_partial :
-    Doc.sparse es = some ((n, P), rest) → (the optionals of `high` absent) →
-      ∃ s w, sparseC.load es = ok (s, rest) ∧ s.Encodes n w P        -- hence all queries by C02 / C15
-  rl_document_file_loads_partial :
-    Doc.rl es = some ((len, runs), rest) →
-      ∃ v, (rlC m).load es = ok (v, rest) ∧ v.len = len ∧ <v.run_iter yields `runs`>
-  wavelet_matrix_document_file_loads_partial :
-    Doc.wm es = some (V, rest) → (the optionals of the levels absent) →
-      ∃ x, wmC.load es = ok (x, rest) ∧ <x answers all queries by V>   -- C04 / C06
+/-- sparse bitvector, the optional structures of `high` absent: every element list the document accepts as a sparse
+bitvector `(n, P)` — whatever admissible low width `w ≤ 63` the writer chose — is loaded, leaving the same rest,
+into a vector that `Encodes n w P`, the hypothesis of every query theorem of C02 / C15; its `high` holds exactly
+the unary bucket sequence of `P` -/
+theorem sparse_document_file_loads (lenE onesE : Word) (r r' rest : Doc.File) (H : List Bool) (w : Nat)
+    (low : List Nat) (n : Nat) (P : List Nat)
+    (h : Doc.sparse (lenE :: onesE :: r) = some ((n, P), rest))
+    (hraw : Doc.rawBits r = some (H, 0 :: 0 :: 0 :: r'))
+    (hlow : Doc.intVector r' = some ((w, low), rest)) (hw : w ≤ 63) (hm : P.length < 2 ^ 63) :
+    ∃ s, sparseC.load (lenE :: onesE :: r) = ok (s, rest) ∧ s.Encodes n w P ∧
+      s.high.data.bits = H ∧ s.low.items = low ∧ H = highBits w (Sparse.getBuckets n w) P :=
+  Format2.sparse_doc_load lenE onesE r r' rest H w low n P h hraw hlow hw hm
 
-What is missing: for sparse, the uniqueness of the unary bucket sequence (`highBits_unique`) applied to the
-DECODED `high` and the validity of the select supports the loader enables; for rl, that the document's
-validity rules imply the monotonicity asserted by the three `SampleIndex::new` calls of the loader; for wm,
-the converse of `Doc.wmItems_cols` (a level list accepted by `Doc.wm` is the column decomposition of its items).
--/
+/-- … so it answers `get`, `rank`, `select` by the position list `P`, for every argument, in both modes (the other
+queries: C02 / C15, all stated for `Encodes`) -/
+theorem sparse_document_file_answers_queries (lenE onesE : Word) (r r' rest : Doc.File) (H : List Bool) (w : Nat)
+    (low : List Nat) (n : Nat) (P : List Nat)
+    (h : Doc.sparse (lenE :: onesE :: r) = some ((n, P), rest))
+    (hraw : Doc.rawBits r = some (H, 0 :: 0 :: 0 :: r'))
+    (hlow : Doc.intVector r' = some ((w, low), rest)) (hw : w ≤ 63) (hm : P.length < 2 ^ 63) :
+    ∃ s, sparseC.load (lenE :: onesE :: r) = ok (s, rest) ∧
+      (∀ (m : Mode) i, i < n → s.get m i = ok (getSet P i)) ∧
+      (∀ (m : Mode) i, s.rank m i = ok (rankSet P i)) ∧
+      (∀ (m : Mode) k, s.select m k = ok (selectSet P k)) := by
+  obtain ⟨s, hl, he, _⟩ := sparse_document_file_loads lenE onesE r r' rest H w low n P h hraw hlow hw hm
+  exact ⟨s, hl, fun m i hi => get_ok he m i hi, fun m i => rank_ok he m i, fun m k => select_ok he m k⟩
+
+/-- the width is read off the file; the only condition on it is `w ≤ 63` -/
+theorem sparse_document_file_loads_any_width (es rest : Doc.File) (n : Nat) (P : List Nat)
+    (h : Doc.sparse es = some ((n, P), rest))
+    (lenE onesE : Word) (r r' : Doc.File) (H : List Bool) (hes : es = lenE :: onesE :: r)
+    (hraw : Doc.rawBits r = some (H, 0 :: 0 :: 0 :: r')) :
+    ∃ w low, Doc.intVector r' = some ((w, low), rest) ∧ 1 ≤ w ∧ w ≤ 64 ∧
+      (w ≤ 63 → P.length < 2 ^ 63 → ∃ s, sparseC.load es = ok (s, rest) ∧ s.Encodes n w P) :=
+  Format2.sparse_doc_load_es es rest n P h lenE onesE r r' H hes hraw
+
+/-- sparse bitvector whose `high` is written by the library with ANY subset of its three support structures
+(`rk`, `sl`, `sz` = rank / select / select_zero enabled) -/
+theorem sparse_document_file_with_library_supports_loads (lenE : Word) (H : List Bool) (rk sl sz : Bool)
+    (r' rest : Doc.File) (w : Nat) (low : List Nat) (n : Nat) (P : List Nat) (hH : H.length < 2 ^ 63)
+    (h : Doc.sparse (lenE :: (bitVectorC.ser (Format2.sp_withSupports (RawVec.ofBits H) rk sl sz) ++ r')) =
+      some ((n, P), rest))
+    (hlow : Doc.intVector r' = some ((w, low), rest)) (hw : w ≤ 63) :
+    ∃ s, sparseC.load (lenE :: (bitVectorC.ser (Format2.sp_withSupports (RawVec.ofBits H) rk sl sz) ++ r')) =
+        ok (s, rest) ∧ s.Encodes n w P ∧ H = highBits w (Sparse.getBuckets n w) P :=
+  Format2.sparse_doc_load_any_supports lenE H rk sl sz r' rest w low n P hH h hlow hw
+
+/-- **`w ≤ 63` is needed (reading 5).**  The 13-element file `[5, 1, 2, 1, 1, 0, 0, 0, 1, 64, 64, 1, 3]` (`n = 5`,
+`high` = bits `10`, one low part of width 64 with value 3) is a sparse bitvector of the document with content
+`(5, [3])` and is loaded by the library; no vector `Encodes` anything at width 64.  On the library as first
+written every `get` / `rank` / `select` on the loaded vector shifted a `usize` by 64 (`sparse_vector.rs`: `split`,
+`combine`) — defect F13, repaired.  The model answers correctly (`Format2.sp_w64_model_answers`): its shifts are
+unbounded, which is the behaviour of the repaired code; the correspondence check now runs this file. -/
+theorem sparse_width_64_file :
+    Doc.sparse Format2.sp_w64_file = some ((5, [3]), []) ∧
+    sparseC.load Format2.sp_w64_file = ok (Format2.sp_w64_vec, []) ∧
+    ∀ (s : Sparse) (n : Nat) (P : List Nat), ¬ s.Encodes n 64 P :=
+  ⟨Format2.sp_w64_doc_valid, Format2.sp_w64_model_loads, Format2.sp_w64_not_encodes⟩
+
+/-- a PRESENT select structure is trusted: `high` = bits `100` carrying the select structure built for `010`; the
+document reads `(8, [1])`, the loader accepts (it checks the superblock count only), and `select(0)` answers 5 while
+`get(1)` is true, in both modes.  Outside the scope of (←): the document calls support structures
+implementation-dependent. -/
+theorem sparse_wrong_select_support_answers_wrongly :
+    Doc.sparse Format2.sp_bad_file = some ((8, [1]), []) ∧
+    ∃ s, sparseC.load Format2.sp_bad_file = ok (s, []) ∧
+      ∀ m ∈ [Mode.checked, Mode.wrapping], s.select m 0 = ok (some 5) ∧ s.get m 1 = ok true :=
+  Format2.sp_bad_select_support
+
+/-! #### run-length encoded bitvector -/
+
+/-- run-length encoded bitvector: every element list the document accepts with content `(len, runs)`, in which
+every integer is minimally encoded (`Format2.RLCanon` on the code units of the file: no continuation unit is
+followed by a unit `0`), is loaded in both modes, leaving the same rest, into a vector that is `RLQ.Good` for
+`runs` — the hypothesis of every query theorem of C03 -/
+theorem rl_document_file_loads (m : Mode) (es rest : Doc.File) (len : Nat) (runs : List (Nat × Nat))
+    (h : Doc.rl es = some ((len, runs), rest))
+    (hcan : ∀ U, Format2.rlDataUnits es = some U → Format2.RLCanon U.toArray) :
+    ∃ v, (rlC m).load es = ok (v, rest) ∧ RLQ.Good v runs ∧ v.len = len :=
+  Format2.rl_doc_load m es rest len runs h hcan
+
+/-- … so it answers every query by `runs` (`RLQ.getR`, `rankR`, … are the answers defined on a run list; for the
+maximal runs of a bit sequence `B` they are the answers defined by `B`: `RLQ.getR_maximalRuns` etc.) -/
+theorem rl_document_file_answers_queries (m : Mode) (es rest : Doc.File) (len : Nat) (runs : List (Nat × Nat))
+    (h : Doc.rl es = some ((len, runs), rest))
+    (hcan : ∀ U, Format2.rlDataUnits es = some U → Format2.RLCanon U.toArray) :
+    ∃ v, (rlC m).load es = ok (v, rest) ∧ v.len = len ∧
+      (∀ i, v.get m i = ok (RLQ.getR runs i)) ∧
+      (∀ i, v.rank m i = ok (RLQ.rankR runs i)) ∧
+      (∀ i, v.rankZero m i = ok (i - RLQ.rankR runs i)) ∧
+      (∀ k, v.select m k = ok (RLQ.selectR runs k)) ∧
+      (∀ k, v.selectZero m k = ok (RLQ.selectZeroR len runs k)) ∧
+      (∀ x, ∃ oi oi', v.successor m x = ok oi ∧ oi.nextQ m v = ok (RLQ.succR runs x, oi')) ∧
+      (∀ x, ∃ oi oi', v.predecessor m x = ok oi ∧ oi.nextQ m v = ok (RLQ.predR runs x, oi')) := by
+  obtain ⟨v, hl, g, e⟩ := rl_document_file_loads m es rest len runs h hcan
+  refine ⟨v, hl, e, g.get m, g.rank m, g.rankZero m, g.select m, ?_, g.successor m, g.predecessor m⟩
+  intro k; rw [← e]; exact g.selectZero m k
+
+/-- **minimal encoding is needed (reading 4).**  The 13-element file
+`[1, 1, 2, 1, 2, 1, 0, 24, 4, 96, 2, 0x8888888888888888, 0x888888]` (the vector `1`: run `(n0, n1) = (0, 1)`, the
+integer `n0 = 0` written as 22 continuation units with data `000` and a final unit `0`) is a run-length encoded
+bitvector of the document with content `(1, [(0, 1)])`; the library loads it, and `get(0)` panics: `decode` shifts
+the 23rd unit by 66 bits (debug build: "attempt to shift left with overflow"; the model reports the same point in
+wrapping mode as outside its domain).  The document does not say that integers use the minimal number of units. -/
+theorem rl_nonminimal_encoding_file :
+    Doc.rl Format2.rlFileNonCanonical = some ((1, [(0, 1)]), []) ∧
+    ((rlC .checked).load Format2.rlFileNonCanonical).isOk = true ∧
+    ((rlC .checked).load Format2.rlFileNonCanonical >>= fun p => p.1.get .checked 0) = fault (.panic .overflow) ∧
+    ((rlC .wrapping).load Format2.rlFileNonCanonical >>= fun p => p.1.get .wrapping 0) = fault (.panic .other) ∧
+    ∃ U, Format2.rlDataUnits Format2.rlFileNonCanonical = some U ∧ ¬ Format2.RLCanon U.toArray :=
+  ⟨Format2.rl_noncanonical_doc_valid, Format2.rl_noncanonical_loads_then_panics.1,
+    Format2.rl_noncanonical_loads_then_panics.2.1, Format2.rl_noncanonical_loads_then_panics.2.2,
+    Format2.rl_noncanonical_not_canon⟩
+
+/-- adjacent runs (the bits `11` as two runs with gap 0) are not a file of the document — "a sequence of maximal
+runs" — although the loader, which does not decode the blocks, accepts them -/
+theorem rl_adjacent_runs_refused_by_document :
+    Doc.rl Format2.rlFileAdjacent = none ∧ ((rlC .checked).load Format2.rlFileAdjacent).isOk = true :=
+  Format2.rl_adjacent_runs_not_document_valid
+
+/-! #### plain wavelet matrix -/
+
+/-- the document side: a level list the document walks (`w` levels of one length `len`) IS the column
+decomposition of the items the document reads from it (converse of `Doc.wmItems_cols`) -/
+theorem wavelet_levels_are_columns (levels : List (List Bool)) (len w : Nat) (hw : levels.length = w)
+    (hlen : ∀ B ∈ levels, B.length = len) :
+    (Doc.wmItems levels len).length = len ∧ (∀ v ∈ Doc.wmItems levels len, v < 2 ^ w) ∧
+    levels = (List.range w).map (col w (Doc.wmItems levels len)) :=
+  Format2.wm_levels_eq_cols levels len w hw hlen
+
+/-- plain wavelet matrix, the optional structures of every level absent (`Format2.wmFilePlain`, a condition on the
+file): every element list the document accepts with items `V` is loaded, leaving the same rest, into a matrix `x`
+with `x.Ok V width` — the hypothesis of every query theorem of C04 -/
+theorem wavelet_matrix_document_file_loads (es rest : Doc.File) (V : List Nat)
+    (h : Doc.wm es = some (V, rest)) (hplain : Format2.wmFilePlain es) (hlen : V.length < 2 ^ 63) :
+    ∃ x width, wmC.load es = ok (x, rest) ∧ x.Ok V width :=
+  Format2.wm_doc_load es rest V h hplain hlen
+
+/-- … so it answers `get`, `rank`, `select` by `V`, for every argument, in both modes -/
+theorem wavelet_matrix_document_file_answers_queries (es rest : Doc.File) (V : List Nat)
+    (h : Doc.wm es = some (V, rest)) (hplain : Format2.wmFilePlain es) (hlen : V.length < 2 ^ 63) :
+    ∃ x, wmC.load es = ok (x, rest) ∧
+      (∀ (m : Mode) i (hi : i < V.length), x.get m i = ok V[i]) ∧
+      (∀ (m : Mode) i v, x.rank m i v = ok ((V.take i).count v)) ∧
+      (∀ (m : Mode) k v, x.select m k v = ok (selectVal V v k)) := by
+  obtain ⟨x, width, hl, hok⟩ := wavelet_matrix_document_file_loads es rest V h hplain hlen
+  exact ⟨x, hl, fun m i hi => get_ok_wm hok m i hi, fun m i v => rank_ok_wm hok m i v,
+    fun m k v => select_ok_wm hok m k v⟩
+
+/-- a PRESENT optional structure with garbage of the announced length: valid for the document (which skips it),
+refused by the loader -/
+theorem wavelet_optional_garbage_refused :
+    Doc.wm Format2.wmFileGarbage = some ([1, 0], []) ∧ wmC.load Format2.wmFileGarbage = fault (.err .eof) :=
+  ⟨Format2.wm_optional_garbage_accepted, Format2.wm_optional_garbage_refused⟩
+
+/-- a PRESENT rank structure of the right shape and wrong content (`[2, 1, 1, 2, 1, 1, 3, 1, 5, 0, 0, 0, 2, 1, 2, 1, 2]`:
+sample `(5, 0)` instead of `(0, 1)`): valid for the document with items `[1, 0]`, loaded by the library, and then
+`rank(1, 1) = 6` (correct: 1) in both modes — `RankSupport::load` only reads the samples and `enable_rank` keeps a
+present structure.  Outside the scope of (←): support structures are implementation-dependent. -/
+theorem wavelet_optional_wrong_rank_answers_wrongly (m : Mode) :
+    Doc.wm Format2.wmFileWrongRank = some ([1, 0], []) ∧
+    (wmC.load Format2.wmFileWrongRank >>= fun p => p.1.rank m 1 1) = ok 6 :=
+  ⟨Format2.wm_optional_wrong_rank_accepted, Format2.wm_optional_wrong_rank_rank m⟩
 
 /-! ### non-vacuity -/
 
@@ -327,5 +516,24 @@ example : bitVectorC.load [2, 3, 1, 5, 0, 0, 0] = ok (BitVector.ofRaw (RawVec.of
 /-- hypotheses of the sparse theorem on a small instance -/
 example : (1 ≤ 2 ∧ 2 ≤ 63 ∧ 10 < 2 ^ 64 ∧ [0, 5, 9].length + Sparse.getBuckets 10 2 < 2 ^ 63 ∧
     [0, 5, 9].length * 2 < 2 ^ 64 ∧ sortedStrict [0, 5, 9] = true ∧ ∀ p ∈ [0, 5, 9], p < 10) := by decide
+
+/-- (→) run-length: `try_set(1, 2); set_len(4)` (the vector `0110`), converted and written, is read by the document
+as `(4, [(1, 2)])`; the hypotheses of `rl_file_follows_format` hold on it -/
+example : ((RL.runBCalls .checked [.set 1 2, .setLen 4] {} >>= fun b => RL.ofBuilder .checked b >>= fun v =>
+      (ok (Doc.rl ((rlC .checked).ser v ++ [7])) : Outcome (Option ((Nat × List (Nat × Nat)) × List Word))))) =
+    ok (some ((4, [(1, 2)]), [7])) := by decide +kernel
+example : ((RL.runBCalls .checked [.set 1 2, .setLen 4] {} >>= fun b => RL.ofBuilder .checked b >>= fun v =>
+      (ok (decide (128 * v.samples.len < 2 ^ 64)) : Outcome Bool))) = ok true := by decide +kernel
+/-- (←) run-length: a document-level file of the same vector is accepted, minimally encoded, loaded, `Good` -/
+example : Doc.rl Format2.rlFileSmall = some ((4, [(1, 2)]), []) := Format2.rl_small_doc_valid
+example (m : Mode) : ∃ v, (rlC m).load Format2.rlFileSmall = ok (v, []) ∧ RLQ.Good v [(1, 2)] ∧ v.len = 4 :=
+  Format2.rl_small_loads m
+/-- (←) sparse: `n = 10`, `w = 2`, values `0, 5, 9`, supports absent -/
+example : Doc.sparse Format2.sp_small_file = some ((10, [0, 5, 9]), []) := Format2.sp_small_doc_valid
+example : ∃ s, sparseC.load Format2.sp_small_file = ok (s, []) ∧ s.Encodes 10 2 [0, 5, 9] := Format2.sp_small_loads
+/-- (←) wavelet matrix: items `[1, 0]`, width 1, supports absent -/
+example : Doc.wm Format2.wmFileOk = some ([1, 0], []) := Format2.wm_example_accepted
+example : Format2.wmFilePlain Format2.wmFileOk := Format2.wm_example_plain
+example : ∃ x width, wmC.load Format2.wmFileOk = ok (x, []) ∧ x.Ok [1, 0] width := Format2.wm_example_loads
 
 end Sds.C07
